@@ -71,6 +71,7 @@ type httpsService struct {
 
 func (s *httpsService) SetChannel(c pushers.Channel) {
 	s.c = c
+	s.httpService.SetChannel(c)
 }
 
 func (s *httpsService) getCertificate(hello *tls.ClientHelloInfo) (*tls.Certificate, error) {
